@@ -1078,6 +1078,33 @@ def c08_reduce_e2e(tier, seed):
     return _finish(r)
 
 
+def c01_reduced_transport(tier, seed):
+    """to_ge_polyhedron(active, reduced=True): the Python glue transports the compiled extension's reduced answer faithfully
+    (b | A, column variables by statement index, support variable first).  The reduction itself is NOT checked."""
+    import pickle
+    from contracts.c01glue import reduced_transport_violations
+    r = _result("rt.c01_reduced_transport", "random validated models (all classes, depth<=3, integer leaves) and special none-of models "
+                "x active in {True, False}: matrix / right-hand side / column variables of to_ge_polyhedron(active, reduced=True) == "
+                "what TheoryPy.to_ge_polyhedron(active, True) answers for the same theory; non-trivial = distinct (model, active)")
+    import puan.logic.plog as pg
+    extra = [pg.Not(pg.Any("d", "e")), pg.AtMost(0, ["a", "b"]), pg.All(pg.AtMost(0, ["a", "b"]), pg.Not(pg.Any("c", "d"))),
+             pg.AtMost(0, [pg.All("a", "b"), pg.All("c", "d")])]
+    models = [(m, None) for m in extra] + list(_models(tier, seed + 58, n_quick=80, n_thorough=600, depth=3))
+    for m0, _ in models:
+        blob = pickle.dumps(m0)
+        for active in (True, False):
+            try:
+                res = reduced_transport_violations(pickle.loads(blob), None, active)
+            except BaseException as e:           # the compiled reduction may panic on some theories: not the glue's business
+                r["_seen"].add(("extension-raises", type(e).__name__))
+                continue
+            r["evaluations"] += 1
+            r["_seen"].add((m0.to_text(), active))
+            for v in res["violated"]:
+                _viol(r, "c01." + v, {"model": m0.to_text(), "active": active}, **{k: v_ for k, v_ in res["detail"].items() if k not in ("model", "active")})
+    return _finish(r)
+
+
 def a_rs1_rows(tier, seed):
     """Run-time validation of the assumed contract A-rs1 together with the Python glue of to_ge_polyhedron: the matrix
     returned for a model is, row for row, the set of rows the contract predicts from the model (ids attached to columns,
